@@ -53,13 +53,13 @@ func checkC32(c *Ctx) (string, []string) {
 		return func(ci ssa.CallInstruction) bool { return isCallTo(ci, o) }
 	}
 	got := map[string][]string{
-		"I.rSum":     callArgShapes(fW, isCall("I"), 7),
-		"I.index":    callArgShapes(fW, isCall("I"), 1),
-		"C.item":     callArgShapes(fW, isCall("C"), 0),
-		"C.result":   callArgShapes(fW, isCall("C"), 1),
-		"C.gas":      callArgShapes(fW, isCall("C"), 2),
-		"A.bundle":   callArgShapes(fW, isCall("A"), 1),
-		"A.hash":     callArgShapes(fW, isCall("A"), 0),
+		"I.rSum":   callArgShapes(fW, isCall("I"), 7),
+		"I.index":  callArgShapes(fW, isCall("I"), 1),
+		"C.item":   callArgShapes(fW, isCall("C"), 0),
+		"C.result": callArgShapes(fW, isCall("C"), 1),
+		"C.gas":    callArgShapes(fW, isCall("C"), 2),
+		"A.bundle": callArgShapes(fW, isCall("A"), 1),
+		"A.hash":   callArgShapes(fW, isCall("A"), 0),
 	}
 	if dump {
 		dumpShapes("W.args", got)
